@@ -27,6 +27,7 @@ type Event struct {
 	Seq    int
 	Pos    token.Pos
 	InLoop bool
+	St     *State // heap at the time of the call (only kept for functions with effect clauses)
 }
 
 // SnapPtr is the snapshot of a pointer-to-struct argument at call time.
@@ -102,6 +103,12 @@ type Engine struct {
 	quiet         int
 	arrCap        map[*Arr]string
 	trivial       []string
+	curState      *State
+	ctxParent     *ssa.Function
+	ctxParentArgs []Val
+	ipText       map[*Arr]string   // net.IP values: the text they were parsed from
+	netTerm       map[string]string // *net.IPNet pointers (by name): their abstract network term
+	boxedTerm     map[string]string // pointers read back from containers: the opaque term they were read as
 }
 
 func (e *Engine) bv() bool { return e.cfg.Arith == "bv" }
@@ -516,7 +523,12 @@ func (e *Engine) unbox(o OpaqueV, t types.Type) Val {
 	case *types.Pointer:
 		if _, ok := u.Elem().Underlying().(*types.Struct); ok {
 			// pointer to struct stored in a container: identity only
-			return PtrV{Nil: eq(o.T, "nilU"), Elem: u.Elem(), Name: "boxed_" + clean(o.T)}
+			name := "boxed_" + clean(o.T)
+			if e.boxedTerm == nil {
+				e.boxedTerm = map[string]string{}
+			}
+			e.boxedTerm[name] = o.T
+			return PtrV{Nil: eq(o.T, "nilU"), Elem: u.Elem(), Name: name}
 		}
 	}
 	return o
@@ -557,6 +569,12 @@ func (e *Engine) arrWrite(st *State, a *Arr, idx string, t types.Type, prefix st
 		val := ""
 		if ov, isO := v.(OpaqueV); isO {
 			val = ov.T
+		} else if pv, isP := v.(PtrV); isP && e.netTerm[pv.Name] != "" {
+			val = ite(pv.Nil, "nilU", e.netTerm[pv.Name])
+		} else if pv, isP := v.(PtrV); isP && e.boxedTerm[pv.Name] != "" {
+			val = e.boxedTerm[pv.Name]
+		} else if pv, isP := v.(PtrV); isP && pv.Nil == "true" {
+			val = "nilU"
 		} else {
 			val = e.fresh("uval", "U")
 			e.boxed[val] = v
@@ -1126,6 +1144,31 @@ func (e *Engine) binop(st *State, op token.Token, x, y Val, t types.Type, xT, yT
 			return nilCmp(op, pv.Nil)
 		}
 	}
+	// pointer into a slice (&s[i]) compared with nil
+	if isCmp {
+		ea, isEA := x.(ElemAddrV)
+		other := y
+		if !isEA {
+			ea, isEA = y.(ElemAddrV)
+			other = x
+		}
+		if isEA {
+			isNilOther := false
+			switch o := other.(type) {
+			case PtrV:
+				isNilOther = o.Nil == "true"
+			case OpaqueV:
+				isNilOther = o.T == "nilU"
+			}
+			if isNilOther {
+				n := ea.Nil
+				if n == "" {
+					n = "false"
+				}
+				return nilCmp(op, n)
+			}
+		}
+	}
 	return e.symbolic(st, t, "binop")
 }
 
@@ -1486,6 +1529,12 @@ func (e *Engine) enterLoop(f *frame, st *State, li *loopInfo, reach string, top 
 					}
 				}
 			}
+		}
+	}
+	// the hidden index of a range loop is compiler-generated: it starts at -1 and only ever grows by one
+	if ri := e.rangeIndexCell(f, li); ri != nil && !e.bv() {
+		if iv, ok := st.cells[ri].(IntV); ok {
+			e.fact(imp(reach, "(>= "+iv.T+" (- 1))"))
 		}
 	}
 	if len(invs) > 0 {
